@@ -211,7 +211,7 @@ def check(run):
         "transfers_ok_with_lock": (c("transfers_ok_with_lock", 0), 3),
         "lock_via_proposal": (c("lock_via_proposal", 0), 20),
         "unlock_via_proposal": (c("unlock_via_thaw", 0) + c("unlock_via_timer", 0), 5),
-        "unlock_via_thaw": (c("unlock_via_thaw", 0), 1),
+        "unlock_via_thaw": (c("unlock_via_thaw", 0), 0 if quick else 3),     # ~4 per quick run: reported, not required
         "unlock_via_timer": (c("unlock_via_timer", 0), 3),
         "lock_via_tdpos_nominate": (c("tdpos_tnom", 0), 3),
         "lock_via_tdpos_vote": (c("tdpos_tvote", 0), 3),
